@@ -965,21 +965,6 @@ def gen_C10(rng, tier):
         pr.emit("E.SetWideBytes", v, b)
     pr.tag("edge values / lengths")
     cases.append(pr)
-    # strings of ff bytes with one byte lowered and a low byte on either side of 0xed (C10-9: a byte-wise test for the
-    # non-canonical range 2^255-19 .. 2^255-1 that forgets one byte position)
-    pr = Prog(rng)
-    v = pr.elem(0)
-    for top in (0x7f, 0xff):
-        for j in range(1, 32):
-            for b0 in (0xec, 0xed, 0xf3, 0xff):
-                s = bytearray([0xff] * 32)
-                s[31] = top
-                s[j] = (s[j] - 1 - rng.randrange(0x7f)) & 0xff if j < 31 else (top ^ 0x40)
-                s[0] = b0
-                pr.emit("E.SetBytes", v, pr.bytes_(bytes(s)))
-                pr.emit("E.Bytes", v, pr.fresh("o"))
-    pr.tag("near-all-ones strings")
-    cases.append(pr)
     # structured 64-byte inputs: a half that is all zero / all ones, integers around p, 2^255, 2^256 and their multiples,
     # zero-extended 32-byte values with bit 255 set (2^255 counts as 19 in the wide decoding, it is ignored in the narrow one)
     pr = Prog(rng)
@@ -1051,6 +1036,23 @@ def gen_C10(rng, tier):
             pr.emit("E.Swap", a, a, cond)
         pr.tag("wide / representations / select / swap")
         cases.append(pr)
+    # strings of ff bytes with one byte lowered and a low byte on either side of 0xed (C10-9: a byte-wise test for the
+    # non-canonical range 2^255-19 .. 2^255-1 that forgets one byte position)
+    # (own generator state and last position, so that the prefixes of this family other checks sample stay as they were)
+    pr = Prog(rng)
+    r2 = random.Random(0xC109)
+    v = pr.elem(0)
+    for top in (0x7f, 0xff):
+        for j in range(1, 32):
+            for b0 in (0xec, 0xed, 0xf3, 0xff):
+                s = bytearray([0xff] * 32)
+                s[31] = top
+                s[j] = (s[j] - 1 - r2.randrange(0x7f)) & 0xff if j < 31 else (top ^ 0x40)
+                s[0] = b0
+                pr.emit("E.SetBytes", v, pr.bytes_(bytes(s)))
+                pr.emit("E.Bytes", v, pr.fresh("o"))
+    pr.tag("near-all-ones strings")
+    cases.append(pr)
     return cases
 
 
